@@ -44,14 +44,14 @@ package preconfirmed
 //@   ensures aligned: result.length > 0 ==> result.head == atomicValue(&s.inner).head && numOf(result.head) - uint64(result.length - 1) == blockNumber && result.length <= atomicValue(&s.inner).length
 
 // ---- growing and trimming the chain: fresh nodes only, contiguous by construction ------------------
-// sn2core.AdaptPreConfirmedBlock builds the block for the number it is given (assumed contract).
-//@ extern func github.com/NethermindEth/juno/adapters/sn2core.AdaptPreConfirmedBlock
-//@   ensures result1 == nil ==> result0.Block != nil && result0.Block.Header != nil && result0.Block.Header.Number == number
+// sn2core.AdaptPreConfirmedBlock builds the block for the number it is given: proved in its own
+// package (built_for_the_number); its call log is that package's ghost state.
 //@ extern func github.com/NethermindEth/juno/core.CheckBlockVersion
 
 // The first entry must sit exactly at the first slot above the canonical head.
 //@ func bootstrapChain
 //@   props C20
+//@   assigns sn2core.calls_DiffMerge, sn2core.arg_DiffMerge_d, sn2core.arg_DiffMerge_incoming
 //@   arith int
 //@   requires block != nil
 //@   ensures rejected: blockNumber != oldestPreConf ==> result2 != nil && result0 == nil
@@ -63,6 +63,7 @@ package preconfirmed
 // handed out earlier never change).
 //@ func extend
 //@   props C20
+//@   assigns sn2core.calls_DiffMerge, sn2core.arg_DiffMerge_d, sn2core.arg_DiffMerge_incoming
 //@   arith int
 //@   requires current != nil && block != nil && wfChain(current) && current.length > 0
 //@   requires no_wrap: current.length < 1<<62 && numOf(current.head) < 1<<63
@@ -78,6 +79,7 @@ package preconfirmed
 // existing node as it was.
 //@ func rebuild
 //@   props C20
+//@   assigns sn2core.calls_DiffMerge, sn2core.arg_DiffMerge_d, sn2core.arg_DiffMerge_incoming
 //@   arith int
 //@   requires keep >= 0
 //@   ensures none: (keep == 0 || current == nil) ==> result == nil
@@ -92,7 +94,7 @@ package preconfirmed
 //@   arith int
 //@   requires s != nil
 //@   requires stored_wf: atomicValue(&s.inner) != nil ==> wfChain(atomicValue(&s.inner))
-//@   assigns calls_CAS, arg_CAS_old, arg_CAS_new
+//@   assigns calls_CAS, arg_CAS_old, arg_CAS_new, sn2core.calls_DiffMerge, sn2core.arg_DiffMerge_d, sn2core.arg_DiffMerge_incoming
 //@   ensures nothing_stored: (atomicValue(&s.inner) == nil || atomicValue(&s.inner).length == 0) ==> !result && calls_CAS == old(calls_CAS)
 //@   ensures aligned_already: atomicValue(&s.inner) != nil && atomicValue(&s.inner).length > 0 && oldestPreConf == numOf(atomicValue(&s.inner).head) - uint64(atomicValue(&s.inner).length - 1) ==> !result && calls_CAS == old(calls_CAS)
 //@   ensures swapped_from_current: calls_CAS != old(calls_CAS) ==> calls_CAS == old(calls_CAS) + 1 && arg_CAS_old == atomicValue(&s.inner)
@@ -109,7 +111,7 @@ package preconfirmed
 //@   props C20
 //@   arith int
 //@   requires current != nil ==> wfChain(current) && current.length < 1<<62 && (current.length > 0 ==> numOf(current.head) < 1<<63)
-//@   assigns calls_replaceSlot, arg_replaceSlot_current, arg_replaceSlot_update, arg_replaceSlot_blockNumber, arg_replaceSlot_baseTxCount, arg_replaceSlot_newClasses
+//@   assigns sn2core.calls_DiffMerge, sn2core.arg_DiffMerge_d, sn2core.arg_DiffMerge_incoming, calls_replaceSlot, arg_replaceSlot_current, arg_replaceSlot_update, arg_replaceSlot_blockNumber, arg_replaceSlot_baseTxCount, arg_replaceSlot_newClasses
 //@   ensures bootstrap: (current == nil || current.length == 0) && result2 == nil && result0 != nil ==> result0.length == 1 && wfNode(result0.head) && result0.head.parent == nil && numOf(result0.head) == oldestPreConf && blockNumber == oldestPreConf
 //@   ensures misaligned: current != nil && current.length > 0 && numOf(current.head) - uint64(current.length - 1) != oldestPreConf ==> result2 != nil && result0 == nil
 //@   ensures below: current != nil && current.length > 0 && blockNumber < numOf(current.head) - uint64(current.length - 1) ==> result2 != nil && result0 == nil
